@@ -1,12 +1,235 @@
-import KcpVerif.Model.Ring
+import KcpVerif.Lemmas.RingIter
 /-!
 C20 — the ring buffer is a FIFO queue for every operation sequence.
-Property theorems only (helper lemmas live in `KcpVerif/Lemmas/`).
+
+Property theorems only; the vocabulary (`Ring.WF`, `Ring.abs`, `Ring.Live`, `Ring.mapUntil`,
+`Ring.Lifts`, the op language `Ring.Op`/`stepRing`/`stepList`) and the helper lemmas live in
+`KcpVerif/Lemmas/Ring.lean` and `KcpVerif/Lemmas/RingIter.lean`.
+
+All theorems quantify over every well-formed ring `WF r` — every capacity ≥ 2, every head/tail
+position, wrapped or not — which is a superset of the states reachable from `NewRingBuffer`.
+The element type `α` and the closure-state type `σ` are arbitrary.
 -/
 namespace KcpVerif.Props
-open KcpVerif KcpVerif.Gen
+open KcpVerif KcpVerif.Gen KcpVerif.Ring
 
-theorem C20_new_len (n : Int) : (Ring.new n : Ring Nat).len = 0 := by
-  simp [Ring.new, Ring.len]
+variable {α σ : Type}
+
+/-! ### construction -/
+
+/-- `NewRingBuffer(n)` is well formed, empty, and has the documented capacity.  Uses
+`2 ≤ RINGBUFFER_MIN` from the regenerated constants. -/
+theorem C20_new_wf (n : Int) :
+    WF (Ring.new n : Ring α) ∧ (Ring.new n : Ring α).abs = [] ∧
+    (Ring.new n : Ring α).size = if n ≤ (RINGBUFFER_MIN : Int) then RINGBUFFER_MIN else n.toNat :=
+  ⟨(rep_new n).wf, (rep_new n).abs, size_new n⟩
+
+/-! ### every operation preserves well-formedness and refines the list operation -/
+
+/-- `Push` appends at the back, whether or not it has to grow first. -/
+theorem C20_push {r : Ring α} (h : WF r) (x : α) :
+    WF (r.push x) ∧ (r.push x).abs = r.abs ++ [x] :=
+  ⟨(h.rep.push x).wf, (h.rep.push x).abs⟩
+
+/-- `Pop` returns the head (`none` = "empty") and leaves the tail of the queue. -/
+theorem C20_pop {r : Ring α} (h : WF r) :
+    r.pop.1 = r.abs.head?.map some ∧ WF r.pop.2 ∧ r.pop.2.abs = r.abs.tail :=
+  ⟨h.rep.pop_fst, h.rep.pop_snd.wf, h.rep.pop_snd.abs⟩
+
+/-- `Peek` returns the head without changing anything. -/
+theorem C20_peek {r : Ring α} (h : WF r) : r.peek = r.abs.head?.map some :=
+  h.rep.peek
+
+/-- `Discard(n)` drops `n` elements from the front (all of them if `n ≥ len`) and returns how
+many it dropped — through the `Clear` shortcut, the contiguous branch and the wrapping branch. -/
+theorem C20_discard {r : Ring α} (h : WF r) (n : Nat) :
+    (r.discard n).1 = min n r.abs.length ∧ WF (r.discard n).2 ∧ (r.discard n).2.abs = r.abs.drop n :=
+  ⟨h.rep.discard_fst n, (h.rep.discard_snd n).wf, (h.rep.discard_snd n).abs⟩
+
+/-- `Clear` empties the queue. -/
+theorem C20_clear {r : Ring α} (h : WF r) : WF r.clear ∧ r.clear.abs = [] :=
+  ⟨h.rep.clear.wf, h.rep.clear.abs⟩
+
+/-- `Len` is the length of the queue. -/
+theorem C20_len {r : Ring α} (h : WF r) : r.len = r.abs.length :=
+  h.rep.len_eq
+
+/-- `IsEmpty` -/
+theorem C20_isEmpty {r : Ring α} (h : WF r) : r.isEmpty = r.abs.isEmpty :=
+  h.rep.isEmpty
+
+/-- `IsFull` holds exactly when `Len() == MaxLen()`, i.e. one slot is left empty. -/
+theorem C20_isFull {r : Ring α} (h : WF r) : r.isFull = true ↔ r.abs.length + 1 = r.size :=
+  h.rep.isFull_iff
+
+/-- `MaxLen` is the capacity minus the one slot kept empty, and the queue never exceeds it. -/
+theorem C20_maxLen {r : Ring α} (h : WF r) :
+    r.maxLen = (r.size : Int) - 1 ∧ (r.abs.length : Int) ≤ r.maxLen := by
+  refine ⟨rfl, ?_⟩
+  have h1 := len_spec r
+  have h2 := h.rep.len_eq
+  have h3 := h.head_lt
+  have h4 := h.tail_lt
+  unfold Ring.maxLen
+  omega
+
+/-- `grow` keeps the queue, normalises the layout to `head = 0`, `tail = len`, and chooses the new
+capacity by regime: below `RINGBUFFER_MIN` → `RINGBUFFER_MIN`; below `RINGBUFFER_EXP` → doubled;
+otherwise +10 % rounded up.  The capacity strictly increases. -/
+theorem C20_grow_preserves {r : Ring α} (h : WF r) :
+    WF r.grow ∧ r.grow.abs = r.abs ∧ r.grow.head = 0 ∧ r.grow.tail = r.len ∧
+    r.grow.size =
+      (if r.size < RINGBUFFER_MIN then RINGBUFFER_MIN
+       else if r.size < RINGBUFFER_EXP then r.size * 2
+       else r.size + (r.size + 9) / 10) ∧
+    r.size < r.grow.size :=
+  ⟨h.rep.grow.wf, h.rep.grow.abs, rfl, rfl, size_grow r,
+    by rw [size_grow]; exact lt_growSize (by have := h.size_ge; omega)⟩
+
+/-- capacity after `Push`: it grows exactly when the ring was full -/
+theorem C20_push_size (r : Ring α) (x : α) :
+    (r.push x).size = if r.isFull then r.grow.size else r.size := by
+  rw [size_push, size_grow]
+
+/-! ### iterators -/
+
+/-- `ForEach` visits the elements head first, threads the closure state, writes back what the
+callback leaves in each visited element, and stops after (and including) the first element on
+which the callback returns `false`: final closure state and resulting queue are those of
+`mapUntil`.  `f` is any slot-level callback that acts on stored elements as `g` does. -/
+theorem C20_forEach_spec {r : Ring α} (h : WF r) {f : σ → Option α → CbRes σ α}
+    {g : σ → α → σ × α × Bool} (hfg : Lifts f g) (s : σ) :
+    (r.forEach f s).1 = (mapUntil g s r.abs).1 ∧ WF (r.forEach f s).2 ∧
+    (r.forEach f s).2.abs = (mapUntil g s r.abs).2 :=
+  ⟨(h.rep.forEach hfg s).1, (h.rep.forEach hfg s).2.wf, (h.rep.forEach hfg s).2.abs⟩
+
+/-- `ForEachReverse` does the same from the back: `mapUntil` on the reversed queue. -/
+theorem C20_forEachReverse_spec {r : Ring α} (h : WF r) {f : σ → Option α → CbRes σ α}
+    {g : σ → α → σ × α × Bool} (hfg : Lifts f g) (s : σ) :
+    (r.forEachReverse f s).1 = (mapUntil g s r.abs.reverse).1 ∧ WF (r.forEachReverse f s).2 ∧
+    (r.forEachReverse f s).2.abs = (mapUntil g s r.abs.reverse).2.reverse :=
+  ⟨(h.rep.forEachReverse hfg s).1, (h.rep.forEachReverse hfg s).2.wf, (h.rep.forEachReverse hfg s).2.abs⟩
+
+/-- `mapUntil` keeps the length (iterators never add or remove elements) … -/
+theorem C20_mapUntil_length (g : σ → α → σ × α × Bool) (s : σ) (q : List α) :
+    (mapUntil g s q).2.length = q.length :=
+  mapUntil_length g s q
+
+/-- … and with a callback that always continues it is `List.map` (sanity of the specification) -/
+theorem C20_mapUntil_map (h : α → α) (s : σ) (q : List α) :
+    mapUntil (fun s a => (s, h a, true)) s q = (s, q.map h) :=
+  mapUntil_map h s q
+
+/-! ### no out-of-range access -/
+
+/-- On a well-formed ring every index and slice expression of every method is in range
+(`Ring.AccessesInRange` lists them site by site): no method panics, and the clamping of the
+model's `List` operations never takes effect. -/
+theorem C20_no_out_of_range {r : Ring α} (h : WF r) : AccessesInRange r :=
+  h.rep.accessesInRange
+
+/-! ### no retained elements -/
+
+/-- Every slot that still holds an element lies in the live range; since `WF` is preserved by
+`Pop`, `Discard` and `Clear` (above), the slots they vacate hold the zero value afterwards. -/
+theorem C20_freed_slots_cleared {r : Ring α} (h : WF r) (i : Nat) (a : α)
+    (hi : r.elems[i]? = some (some a)) : i < r.size ∧ r.Live i := by
+  have hlt : i < r.size := by
+    by_cases hc : i < r.elems.length
+    · exact hc
+    · rw [List.getElem?_eq_none (by omega)] at hi; cases hi
+  refine ⟨hlt, ?_⟩
+  apply Classical.byContradiction
+  intro hn
+  rw [h.dead i hlt hn] at hi
+  cases hi
+
+/-- in particular: the slot a successful `Pop` read from is zeroed -/
+theorem C20_pop_clears_slot {r : Ring α} (h : WF r) (hne : r.abs ≠ []) :
+    r.pop.2.elems[r.head]? = some none := by
+  have h0 : r.len ≠ 0 := fun hc => hne (h.rep.len_zero_iff.1 hc)
+  have hh : r.head < r.elems.length := h.head_lt
+  simp [Ring.pop, h0, hh]
+
+/-- and after `Clear` every slot is zero -/
+theorem C20_clear_all_slots {r : Ring α} (h : WF r) (i : Nat) (hi : i < r.size) :
+    r.clear.elems[i]? = some none := by
+  have hc := h.rep.clear
+  apply hc.dead i (by rw [size_clear]; exact hi)
+  rw [live_iff]
+  show ¬((0 : Nat) ≤ 0 ∧ 0 ≤ i ∧ i < 0 ∨ (0 : Nat) < 0 ∧ (0 ≤ i ∨ i < 0))
+  omega
+
+/-! ### the ring is a queue -/
+
+/-- For every op sequence from every well-formed start, all outputs of the ring equal those of
+the list queue started from `abs r`, the final ring is well formed and represents the final
+queue. -/
+theorem C20_ring_is_queue {r : Ring α} (h : WF r) (ops : List (Op σ α)) :
+    (runRing r ops).1 = (runList r.abs ops).1 ∧ WF (runRing r ops).2 ∧
+    (runRing r ops).2.abs = (runList r.abs ops).2 :=
+  ⟨(h.rep.run ops).1, (h.rep.run ops).2.wf, (h.rep.run ops).2.abs⟩
+
+/-- from a fresh buffer of any requested size: the ring is the queue started empty -/
+theorem C20_ring_is_queue_from_new (n : Int) (ops : List (Op σ α)) :
+    (runRing (Ring.new n : Ring α) ops).1 = (runList [] ops).1 :=
+  ((rep_new n).run ops).1
+
+/-! ### non-vacuity: the hypotheses `WF r` / `Lifts f g` are satisfied by concrete non-trivial
+states (wrapped, full, about to grow), and the theorems say what one computes there -/
+
+/-- capacity 8, wrapped: the live range is slots 6,7,0,1 -/
+def exWrapped : Ring Nat := ⟨6, 2, [some 5, some 6, none, none, none, none, some 3, some 4]⟩
+
+/-- capacity 8, wrapped and full (7 elements, tail + 1 = head) -/
+def exFull : Ring Nat := ⟨5, 4, [some 4, some 5, some 6, some 7, none, some 1, some 2, some 3]⟩
+
+/-- both layouts are reached through the public operations from `NewRingBuffer(0)` -/
+theorem C20_exWrapped_eq :
+    exWrapped = (runRing (σ := Unit) (Ring.new 0)
+      [.push 0, .push 0, .push 0, .push 0, .push 1, .push 2, .discard 4, .pop, .pop,
+       .push 3, .push 4, .push 5, .push 6]).2 := by decide
+
+theorem C20_exFull_eq :
+    exFull = (runRing (σ := Unit) (Ring.new 8)
+      [.push 0, .push 0, .push 0, .push 0, .push 0, .discard 4, .pop,
+       .push 1, .push 2, .push 3, .push 4, .push 5, .push 6, .push 7]).2 := by decide
+
+theorem C20_exWrapped_wf : WF exWrapped := by
+  rw [C20_exWrapped_eq]; exact (C20_ring_is_queue (C20_new_wf 0).1 _).2.1
+
+theorem C20_exFull_wf : WF exFull := by
+  rw [C20_exFull_eq]; exact (C20_ring_is_queue (C20_new_wf 8).1 _).2.1
+
+example : exWrapped.tail < exWrapped.head ∧ exWrapped.abs = [3, 4, 5, 6] := by decide
+example : exFull.isFull = true ∧ exFull.abs = [1, 2, 3, 4, 5, 6, 7] := by decide
+
+-- push on the full wrapped ring grows 8 → 16 and re-bases the layout (C20_push, C20_grow_preserves)
+example : (exFull.push 8).size = 16 ∧ (exFull.push 8).head = 0 ∧ (exFull.push 8).tail = 8 ∧
+    (exFull.push 8).abs = [1, 2, 3, 4, 5, 6, 7, 8] := by decide
+-- pop / peek at the wrap point (C20_pop, C20_peek, C20_pop_clears_slot)
+example : exWrapped.pop.1 = some (some 3) ∧ exWrapped.peek = some (some 3) ∧
+    exWrapped.pop.2.elems[6]? = some none ∧ exWrapped.pop.2.abs = [4, 5, 6] := by decide
+-- Discard across the array end (wrapping branch), exactly to the array end, and beyond len (C20_discard)
+example : (exWrapped.discard 3).1 = 3 ∧ (exWrapped.discard 3).2.head = 1 ∧ (exWrapped.discard 3).2.abs = [6] := by decide
+example : (exWrapped.discard 2).2.head = 0 ∧ (exWrapped.discard 2).2.abs = [5, 6] := by decide
+example : (exWrapped.discard 9).1 = 4 ∧ (exWrapped.discard 9).2.abs = [] := by decide
+
+/-- a closure that records what it is shown (state: checksum), adds 10 to each element, and
+stops after the first element ≡ 1 (mod 3) -/
+def exCb (s : Nat) (a : Nat) : Nat × Nat × Bool := (s * 31 + a, a + 10, a % 3 != 1)
+
+example : Lifts (liftCb exCb) exCb := lifts_liftCb exCb
+-- the list-level specification itself: 3 continues, 4 stops (and is still updated), 5 and 6 untouched
+example : mapUntil exCb 0 [3, 4, 5, 6] = (3 * 31 + 4, [13, 14, 5, 6]) := by decide
+-- ForEach over the wrapped ring (C20_forEach_spec) …
+example : (exWrapped.forEach (liftCb exCb) 0).1 = 3 * 31 + 4 ∧
+    (exWrapped.forEach (liftCb exCb) 0).2.abs = [13, 14, 5, 6] := by decide
+-- … and ForEachReverse: 6, 5 continue, 4 stops (C20_forEachReverse_spec)
+example : (exWrapped.forEachReverse (liftCb exCb) 0).1 = (6 * 31 + 5) * 31 + 4 ∧
+    (exWrapped.forEachReverse (liftCb exCb) 0).2.abs = [3, 14, 15, 16] := by decide
+-- a whole sequence with outputs (C20_ring_is_queue)
+example : (runRing exFull [Op.pop, .push 8, .push 9, .forEachReverse exCb 0, .discard 3, .len, .isEmpty]).1 =
+    [.slot (some (some 1)), .unit, .unit, .st ((9 * 31 + 8) * 31 + 7), .num 3, .num 5, .bool false] := by decide
 
 end KcpVerif.Props
